@@ -487,7 +487,7 @@ def check(run: lib.Run, audit: dict) -> int:
     pd_failed = (trr or {}).get("extraction_failed") if isinstance(trr, dict) else None
     if isinstance(pd, dict) and "extraction_failed" in pd:
         pd_failed = pd["extraction_failed"]
-    ok_pd, detail_pd = lib.run_obligation("C04_parse_dt_translated")
+    ok_pd, detail_pd = lib.run_obligation("C04_parse_dt_translated", deps=["C04_translated"])
     run.obligation("C04_parse_dt_translated: Generated.Src.parse_dt (the current source text of _parse_dt; externals = the expressions "
                    "datetime.fromtimestamp(float(x), tz=timezone.utc) and datetime.fromisoformat(x.replace('Z', '+00:00')), instantiated with the "
                    "oracle) = the model's parseDt: the instant as an aware datetime or ConditionTypeError, never another exception, for every "
